@@ -28,6 +28,8 @@ def flat (a : List (List Float)) : String := " ".intercalate (a.flatten.map floa
 `gammanm nzrad`                   → `n m n m …`      (the bookkeeping lists of `makegammas`)
 `gamma nzrad`                     → `gamx` then `gamy`, row-major
 `gammaint nzrad`                  → the cleared integer matrices, row-major
+`degen N J`                       → for `j = 1 … J`: `nonconstPix ℚ j N` `nonzeroPix ℚ j N` as `0`/`1` (exact rational pixels at `rot = 0`)
+`round num den`                   → `npRound num den` (`int(numpy.round(num/den))`)
 -/
 def handle (args : List String) : Option String :=
   match args with
@@ -106,6 +108,17 @@ def handle (args : List String) : Option String :=
       let gx := (List.range nz).flatMap (fun i => (List.range nz).map (fun j => gamxInt nm i j))
       let gy := (List.range nz).flatMap (fun i => (List.range nz).map (fun j => gamyInt nm i j))
       pure (" ".intercalate ((gx ++ gy).map toString))
+  | ["degen", N, J] => do
+      let N ← N.toNat?
+      let J ← J.toNat?
+      if 0 < N then
+        pure (" ".intercalate ((List.range J).map (fun i =>
+          (if nonconstPix Rat (i + 1) N then "1" else "0") ++ " " ++ (if nonzeroPix Rat (i + 1) N then "1" else "0"))))
+      else none
+  | ["round", num, den] => do
+      let num ← num.toNat?
+      let den ← den.toNat?
+      if 0 < den then pure (toString (npRound num den)) else none
   | _ => none
 
 end AoVerif.Drive.C12
